@@ -1,5 +1,6 @@
 """C03 — expressions evaluate per the documented operator semantics and precedence."""
 import os
+import re
 import subprocess
 
 import checklib
@@ -8,9 +9,11 @@ import checklib
 def decode(p):
     f = p.split(" ")
     try:
-        if f[0] == "M":
-            return {"source": bytes.fromhex(f[1]).decode("utf8", "replace"), "evaluated_in_turn_under": f[-1].split("|")}
-        return {"source": bytes.fromhex(f[0]).decode("utf8", "replace") if f[0] != "-" else ""}
+        src = _field(p, "src")
+        d = {"source": bytes.fromhex(src).decode("utf8", "replace") if src != "-" else ""}
+        if _field(p, "env"):
+            d["evaluated_in_turn_under"] = _field(p, "env").split("|")
+        return d
     except Exception:
         return p
 
@@ -36,7 +39,49 @@ def extract(ctx):
         ctx.c03_amplify = True
 
 
+def _field(payload, key):
+    for f in payload.split(" "):
+        if f.startswith(key + "="):
+            return f[len(key) + 1:]
+    return None
+
+
+def _lower_names(res):
+    """error operand names compared without letter case (keyword spelling variants)"""
+    def low(m):
+        try:
+            return m.group(1) + bytes.fromhex(m.group(2)).decode("utf8", "replace").lower().encode().hex() + " "
+        except ValueError:
+            return m.group(0)
+    return re.sub(r"(E \w+ )([0-9a-f]+) ", low, res)
+
+
 def post(ctx, cases, gores, model):
+    # layout / keyword-spelling variants against their single-blank writing: the REAL code alone must
+    # give the same tree and outcome for every member of a group (independent of model and of both lexers)
+    groups = {}
+    for i, p in cases.items():
+        gid = _field(p, "grp")
+        if gid:
+            groups.setdefault(gid, []).append(i)
+    ngroups = nvariants = 0
+    reported = 0
+    for gid, idxs in sorted(groups.items()):
+        if len(idxs) < 2:
+            continue
+        ngroups += 1
+        nvariants += len(idxs) - 1
+        ref = _lower_names(gores.get(idxs[0], "MISSING"))
+        for i in idxs[1:]:
+            if _lower_names(gores.get(i, "MISSING")) != ref and reported < 2:
+                reported += 1
+                rp = checklib.write_replay(ctx, "input", {"payload": cases[i], "readable": decode(cases[i]),
+                                                          "plain_writing": decode(cases[idxs[0]])},
+                                           gores.get(idxs[0]), gores.get(i),
+                                           f"./check {ctx.prop} --replay <this file> (compare with the plain writing)", tag="layout")
+                checklib.violation(ctx, rp, "layout / spelling variant differs from its single-blank writing")
+    ctx.coverage["layout_groups"] = ngroups
+    ctx.coverage["layout_variants_compared_with_plain_writing"] = nvariants
     if getattr(ctx, "c03_amplify", False):
         found = search(ctx, big=True)
         if found:
@@ -81,31 +126,53 @@ SPEC = dict(
           "variables is parsed ONCE and the SAME tree is evaluated under 2-5 environments in a row with every variable rebound "
           "(patterns of like, operands of every operator), the model evaluating each environment independently — any state kept "
           "on an AST node between evaluations shows. Compared: tree shape of the real parser (node kinds, no "
-          "positions) and value (float bit pattern) or error kind + the operand token it names. Non-trivial = the parsed tree has "
+          "positions) and value (float bit pattern) or error kind + the operand token it names + the operand the error is attached "
+          "to (index among the raising operator's children). Also: programs of several expression statements (line rule), number-"
+          "literal forms (1e5, 1e+999, 1.2.3, 5., `1 -2`), strings with '=', escapes, UTF-8, values around +-2^63, NaN/Inf/-0 in "
+          "environments, `:=` inside pair forms (tree only). Every layout / keyword-spelling variant is also compared with its "
+          "single-blank writing on the Go results alone. Non-trivial = the parsed tree has "
           "at least one operator or list."),
-    exhaustive="all operator pairs (19x19x3 bracket forms), all prefix/binary pairs, all operator x literal-kind pairs",
+    exhaustive="all operator pairs (19x19x3 bracket forms, each also in a random layout), all 19^3 bracket-free triples, all prefix/binary pairs, all operator x literal-kind pairs",
     trusted_base=[
-        "tokens are those of the real lexer (parser.LexToList); number text -> float64 is strconv.ParseFloat (bits shipped in the payload)",
+        "the model lexes the source itself with the Lean lexer model Ecal.Lex (tied to lexer.go by C18/C07); for generated "
+        "expressions the generator's intended token texts are shipped and must be what the lexer model finds; number text -> "
+        "float64 is strconv.ParseFloat (bits shipped per number text)",
         "fmt.Sprint of a float64, regexp.Compile/MatchString and int64(x) for x outside the int64 range are oracles shipped per case "
         "(computed by the Go standard library, not by the interpreter); a missing entry is reported as a disagreement",
-        "float arithmetic of the model driver is Lean's Float (IEEE double of the same machine); theorems hold for every carrier",
-        "the table in lean/Ecal/Gen/C03.lean is extracted from parser.go by go/ast (harness C03 -tool extract) on every run",
+        "float arithmetic of the model driver is Lean's Float (IEEE double of the same machine): float rounding, NaN, infinities, "
+        "-0 are TESTED, not proved; the theorems hold for every carrier, floor division / truncated remainder are proved for the "
+        "exact rational carrier",
+        "hand-written parts of the model (trusted through the differential run only): the Pratt loop itself (strictness of "
+        "`rightBinding < binding`, skipToken(RPAREN), the comma rule of ndList, the line rule, the identifier guard) and the "
+        "operator helpers numOp/boolOp/strOp/genOp/listOp; extracted facts: astNodeMap entries and the four p.run arguments "
+        "(go/ast + constant evaluation, harness C03 -tool extract, on every run)",
+        "the reference semantics Spec.eval was written from the language reference AND the code (mixed-kind comparison by text, "
+        "strict and/or are the code's choices canonised)",
     ],
-    assumptions=["no function calls, accesses or nested assignments inside the expression (evaluation has no side effects)",
-                 "string literals contain no {{ }} (interpolation is C14)"],
+    assumptions=["no function calls, accesses or nested assignments inside the expression (evaluation has no side effects); an "
+                 "assignment elsewhere than `name := <expr>` as the whole program: only the tree is compared",
+                 "string literals contain no {{ }} (interpolation is C14)",
+                 "environment lists are non-empty or nil and hold no NaN (reflect.DeepEqual distinguishes a nil from an empty "
+                 "non-nil slice and short-cuts on identical backing arrays; neither can arise from literals of the fragment)"],
     decode=decode,
 )
 
 META = dict(
     technique=("Lean 4 theorems over an executable model of the Pratt loop (driven by the binding table regenerated from "
                "parser.go) and of the operator runtimes + differential correspondence on Runtime.Eval"),
-    level_text=("Proof: for every expression tree of any depth the Pratt loop with the real binding table parses every admissible "
-                "writing of the tree (minimal brackets per the documented grammar, plus arbitrary redundant ones, any line layout) "
-                "back to that tree; table facts re-proved by decide on every run; the interpreter-style evaluation equals the "
-                "per-operator reference semantics for all trees, environments and numeric carriers; wrong-kind operands are errors "
-                "naming the operand. Model tied to the code by ~39k (quick) / ~300k (thorough) compared evaluations."),
-    level_note=("Trusted: Lean kernel + propext/Classical.choice/Quot.sound; the harness; real lexer output and the float text / "
-                "regexp / out-of-range int64 oracles are taken from Go."),
+    level_text=("Proof (precedence): for every expression tree of any depth the Pratt loop with the real binding table parses every "
+                "admissible writing of the tree (minimal brackets per the documented grammar, arbitrary redundant ones, the tokens on "
+                "any LINES) back to that tree, and conversely everything it accepts is such a writing of the tree it returns (list "
+                "elements may lack commas); the grammar is unambiguous; fuel never runs out; table facts re-proved by decide on every "
+                "run. Proof (semantics): interpreter-style evaluation (helpers, evaluation order, text fallback of comparisons) = "
+                "per-operator reference semantics up to two known findings, for all trees / environments / numeric carriers; wrong-"
+                "kind operands are errors naming the operand; for exact rational arithmetic `//` is the floor of the quotient and `%` "
+                "the truncated remainder. Tested, not proved: the model against the code (~62k quick / ~600k thorough evaluations), "
+                "IEEE behaviour of the float carrier, whitespace / keyword case / number splitting (Lean lexer model on the model "
+                "side, intended tokens, layout variants against their plain writing on the real code alone)."),
+    level_note=("Trusted: Lean kernel + propext/Classical.choice/Quot.sound; the harness and go/ast extractor; the hand-written model "
+                "of run/ndList/ndIdentifier-guard and of numOp/boolOp/...; Ecal.Lex (C18/C07); float text / regexp / out-of-range "
+                "int64 oracles from the Go standard library. 'Any layout' in the theorems means any line numbers of given tokens."),
 )
 
 
